@@ -87,6 +87,16 @@ def seed_layouts(rng):
         [F(), md, moov([trak(box(b"stco", b"\0\0\0\0" + be32(1) + be32(7) + b"x"))])],
         [F(), md, moov([trak(box(b"stco", b"\0\0\0\0" + be32(2**30) + be32(7)))])],
         [F(), md, moov([trak(box(b"co64", b"\0\0\0\0" + be32(2**29) + be64(7)))])],
+        # entry counts whose byte length equals the bytes present only modulo 2^32 (a count of 2^30 + k stco entries or
+        # 2^29 + k co64 entries with k present): must be refused, whatever integer width the length is computed in
+        [F(), md, moov([trak(box(b"stco", b"\0\0\0\0" + be32(2**30)))])],
+        [F(), md, moov([trak(box(b"stco", b"\0\0\0\0" + be32(2**30 + 1) + be32(7)))])],
+        [F(), md, moov([trak(box(b"stco", b"\0\0\0\0" + be32(2**31 + 2) + be32(7) + be32(9)))])],
+        [F(), md, moov([trak(box(b"stco", b"\0\0\0\0" + be32(3 * 2**30 + 1) + be32(7)))])],
+        [F(), md, moov([trak(box(b"co64", b"\0\0\0\0" + be32(2**29)))])],
+        [F(), md, moov([trak(box(b"co64", b"\0\0\0\0" + be32(2**29 + 1) + be64(7)))])],
+        [F(), md, moov([trak(box(b"co64", b"\0\0\0\0" + be32(7 * 2**29 + 2) + be64(7) + be64(8)))])],
+        [F(), moov([trak(box(b"stco", b"\0\0\0\0" + be32(2**30 + 1) + be32(7)))]), md],
     ]
     return out
 
@@ -191,6 +201,23 @@ def gap_lattice(rng, readers=("cursor", "strict")):
             L = Layout().add(f).add(box(b"free", b"\0" * (fill - 8))).add(box(b"mdat", b"abcdefg")).add(mv)
             for rd in readers:
                 yield case_line(rd, DEFAULT_MAX, None, L.total(), L.exts()), "gap-1to7"
+
+
+def huge_gap_lattice(readers=("strict", "lenient", "vseek")):
+    """the media displaced by 2^31 .. nearly 2^64 bytes on sparse streams (a 64-bit free box before the mdat, the moov last):
+    the displacement -(gap) does not fit an i32 and the rewrite must be refused - in whatever integer width, wrapping or not,
+    the difference is computed; small entries, so that no per-entry overflow hides a wrong shift"""
+    for g in [2**31 + 64, 2**32 + 64, 2**33, 2**62, 2**63 - 64, 2**63, 2**63 + 64, 2**64 - 2**32, 2**64 - 2**31 - 64, 2**64 - 2**31,
+              2**64 - 2**31 + 64, 2**64 - 2**20, 2**64 - 4096, 2**64 - 400]:
+        for w, ents in ((4, [20, 30]), (8, [5]), (4, [0]), (8, [2**40])):
+            f = F()
+            mv = simple_moov([(w, ents)])
+            md = box(b"mdat", b"abcdefg")
+            if len(f) + g + len(md) + len(mv) > 2**64 - 1:
+                continue
+            L = Layout().add(f).add(box(b"free", b"", form="64", size=g), virtual=g).add(md).add(mv)
+            for rd in readers:
+                yield case_line(rd, DEFAULT_MAX, None, L.total(), L.exts()), "huge-gap"
 
 
 ALPHABET = None
@@ -371,6 +398,7 @@ def standard_stream(run, rewrite_n, mut_n, seq_len, seq_sample=None):
         for rd in ("cursor", "strict"):
             yield case_dense(rd, DEFAULT_MAX, None, b"".join(lay)), "seed-layouts"
     yield from gap_lattice(rng)
+    yield from huge_gap_lattice()
     yield from rewrite_cases(rng, rewrite_n)
     yield from pathologies(rng)
     yield from tree_mutations(rng, mut_n)
